@@ -438,38 +438,57 @@ class LRUTrie(object):
             return current_path >= p
 
         def inorder_traversal(node, lru, path=0):
-            # NOTE: could be done before this call to avoid reading too much from file
-            if pagination_path is not None and not can_follow_path(path):
-                return
+            # NOTE: iterative (explicit stack) rather than recursive, because
+            # the depth of the walk is only bounded by the number of siblings
+            # (a BST fed with sorted stems degenerates into a list).
+            # A frame is (node, lru, path, step) where step is:
+            #   0: entering the node, 1: left side done, 2: node & child done
+            stack = [(node, lru, path, 0)]
 
-            if node.block != starting_node.block:
-                if node.has_left():
-                    for item in inorder_traversal(
-                        node.left_node(), lru, base4_append(path, 1)
-                    ):
-                        yield item
+            while len(stack):
+                node, lru, path, step = stack.pop()
 
-            current_lru = lru + node.stem()
-            relevant_node = (
-                node.block == starting_node.block or not node.has_webentity()
-            )
+                if step == 0:
+                    # NOTE: could be done before to avoid reading too much from file
+                    if pagination_path is not None and not can_follow_path(path):
+                        continue
 
-            if relevant_node:
-                if pagination_path is None or current_lru > pagination_lru:
-                    yield node, current_lru, path
+                    stack.append((node, lru, path, 1))
 
-                if node.has_child():
-                    for item in inorder_traversal(
-                        node.child_node(), current_lru, base4_append(path, 2)
-                    ):
-                        yield item
+                    if node.block != starting_node.block:
+                        if node.has_left():
+                            stack.append(
+                                (node.left_node(), lru, base4_append(path, 1), 0)
+                            )
 
-            if node.block != starting_node.block:
-                if node.has_right():
-                    for item in inorder_traversal(
-                        node.right_node(), lru, base4_append(path, 3)
-                    ):
-                        yield item
+                elif step == 1:
+                    current_lru = lru + node.stem()
+                    relevant_node = (
+                        node.block == starting_node.block or not node.has_webentity()
+                    )
+
+                    stack.append((node, lru, path, 2))
+
+                    if relevant_node:
+                        if node.has_child():
+                            stack.append(
+                                (
+                                    node.child_node(),
+                                    current_lru,
+                                    base4_append(path, 2),
+                                    0,
+                                )
+                            )
+
+                        if pagination_path is None or current_lru > pagination_lru:
+                            yield node, current_lru, path
+
+                else:
+                    if node.block != starting_node.block:
+                        if node.has_right():
+                            stack.append(
+                                (node.right_node(), lru, base4_append(path, 3), 0)
+                            )
 
         for item in inorder_traversal(starting_node, starting_lru):
             yield item
